@@ -177,15 +177,16 @@ type world struct {
 	ncalls       int
 	foreign      []*fsc
 	// round robin
-	rrCount    int // BIND picks issued since the cursor was last synchronised
-	rrBase     int // slot index assigned to the pick that synchronised the cursor
-	rrSynced   bool
-	rrLen      int
-	rrOff      bool // expectations switched off (a pool conn was shut down)
-	rrLastUns  *pendingPick
-	aggBefore  connectivity.State // aggregate at the start of the current primitive op
-	anySwap    bool
-	sawResolve bool
+	rrCount     int // BIND picks issued since the cursor was last synchronised
+	rrBase      int // slot index assigned to the pick that synchronised the cursor
+	rrSynced    bool
+	rrLen       int
+	rrOff       bool // expectations switched off (a pool conn was shut down)
+	rrLastUns   *pendingPick
+	aggBefore   connectivity.State // aggregate at the start of the current primitive op
+	aliveBefore int                // pool connections at the start of the current primitive op
+	anySwap     bool
+	sawResolve  bool
 }
 
 // fail reports a violated rule. prop may list alternatives ("C09|C06"): the first enabled one is
@@ -234,6 +235,7 @@ func (w *world) activeProp() string {
 func (w *world) resetObs() {
 	w.cc.reset()
 	w.aggBefore = w.agg()
+	w.aliveBefore = w.alive()
 }
 
 func (w *world) ready(i int) bool { return w.slots[i].alive && w.slots[i].st == connectivity.Ready }
@@ -326,6 +328,11 @@ func (w *world) checkPub(what string, R0 []int) {
 	}
 	if fmt.Sprint(R0) != fmt.Sprint(R1) && len(w.cc.pubs) == 0 {
 		w.fail("C04", "A.pub.1", "%s: READY set changed %v -> %v but nothing was published", what, R0, R1)
+	}
+	if w.aliveBefore > 0 && w.alive() > 0 && (w.aggBefore == connectivity.TransientFailure) != (a1 == connectivity.TransientFailure) && len(w.cc.pubs) == 0 {
+		// also before anything was ever published: a pool whose connections were all idle (aggregate
+		// TRANSIENT_FAILURE by the definition of C04) starts connecting
+		w.fail("C04", "A.pub.4", "%s: the aggregate went from %v to %v (a change to or from TRANSIENT_FAILURE) but nothing was published (%s)", what, w.aggBefore, a1, w.describe())
 	}
 	if len(w.pubs) > 0 && w.pubs[len(w.pubs)-1].state != a1 {
 		w.fail("C04", "A.pub.2", "%s: last published state %v, pool aggregate is %v (slots %s)", what, w.pubs[len(w.pubs)-1].state, a1, w.describe())
